@@ -850,3 +850,73 @@ def rf105(run):
     if n == 0:
         raise F.AnalysisBroken('_reduce_encode_buf: the offset of _reduce_output_ref depends on no dictionary read')
     return n
+
+
+# ---------------------------------------------------------------------------------------------
+# RF135: a buffer of the encoder is encoded once
+# ---------------------------------------------------------------------------------------------
+
+def rf135(run):
+    rule = 'RF135'
+    run.rule(rule, 'mir-reduce.h encoder: _reduce_encode_buf encodes (and hashes) data->buf[0 .. buf_bound).  In every function that calls it, '
+                   'each path from the call to the exit of the function resets data->buf_bound to 0 or releases the encoder state; a '
+                   'buffer left marked as full is encoded a second time by reduce_encode_finish when no further byte arrives (inputs whose '
+                   'length is a multiple of the buffer size decode to one buffer too many, with a matching check hash)')
+    tu = run.tu('mir')
+    n = 0
+    for g in tu.func_list:
+        if g.body is None or g.name == '_reduce_encode_buf' or not g.file.endswith('mir-reduce.h'):
+            continue
+        calls = [x for x in g.walk() if x['k'] == 'CallExpr' and x.get('callee') == '_reduce_encode_buf']
+        if not calls:
+            continue
+        run.functions_analysed.add(('mir', g.name))
+        cfg = g.cfg
+        good = set()
+        for B in cfg.blocks.values():
+            for e in B.elems:
+                for y in F.walk(e):
+                    if y['k'] == 'BinaryOperator' and y['op'] == '=' and F.src(F.strip(y['c'][0])).replace(' ', '').endswith('->buf_bound') \
+                            and F.const_value(F.strip(y['c'][1])) == 0:
+                        good.add(B.id)
+                    if y['k'] == 'CallExpr' and (y.get('callee') in ('free', 'MIR_free') or 'free' in (F.callee_member(y) or '')) and 'data' in F.src(y):
+                        good.add(B.id)
+        for c in calls:
+            b = cfg.block_of(c)
+            # the reset may sit in the same block behind the call
+            B = cfg.blocks[b]
+            after = False
+            same = False
+            for e in B.elems:
+                if any(y is c for y in F.walk(e)):
+                    after = True
+                    continue
+                if after and any((y['k'] == 'BinaryOperator' and y['op'] == '=' and F.src(F.strip(y['c'][0])).replace(' ', '').endswith('->buf_bound')
+                                  and F.const_value(F.strip(y['c'][1])) == 0)
+                                 or (y['k'] == 'CallExpr' and (y.get('callee') in ('free', 'MIR_free') or 'free' in (F.callee_member(y) or ''))
+                                     and 'data' in F.src(y)) for y in F.walk(e)):
+                    same = True
+            ok = same
+            if not ok:
+                seen = set()
+                st = list(cfg.live_succs(b))
+                reach_exit = False
+                while st:
+                    x = st.pop()
+                    if x in seen or x in good:
+                        continue
+                    seen.add(x)
+                    if x == cfg.exit:
+                        reach_exit = True
+                        break
+                    st.extend(cfg.live_succs(x))
+                ok = not reach_exit
+            n += 1
+            run.ob(rule, (g.name, c['l']), ok, {'function': g.name, 'call at': c['l'], 'buffer emptied or state released on every path': ok})
+            if not ok:
+                run.violation(rule, g, 'encoded buffer left pending', '%s calls _reduce_encode_buf (line %d) and can return with data->buf_bound still '
+                              'covering the bytes just encoded: when the input ends there, reduce_encode_finish encodes the same buffer again and the '
+                              'stream decodes to extra bytes (MIR_read: garbage at the end of file)' % (g.name, c['l']), line=c['l'])
+    if n < 2:
+        raise F.AnalysisBroken('RF135: only %d calls of _reduce_encode_buf outside the function itself' % n)
+    return n
